@@ -1,6 +1,7 @@
 package main
 
 import (
+	"strconv"
 	"bytes"
 	"context"
 	"fmt"
@@ -265,6 +266,15 @@ func dischargeBatch(group []*Obligation, dir string, timeoutMs int) {
 
 var keepAllSMT = os.Getenv("GOVC_KEEP_ALL") != ""
 
+// secondPerName: in the thorough tier, how many path instances per obligation name are re-decided by the two
+// other solvers (GOVC_SECOND overrides).
+var secondPerName = func() int {
+	if v, err := strconv.Atoi(os.Getenv("GOVC_SECOND")); err == nil && v > 0 {
+		return v
+	}
+	return 6
+}()
+
 func dischargeAll(obls []*Obligation, dir string, timeoutMs, workers int, thorough bool) {
 	os.MkdirAll(dir, 0o755)
 	all0 := obls
@@ -361,7 +371,7 @@ func dischargeAll(obls []*Obligation, dir string, timeoutMs, workers int, thorou
 	seen := map[string]int{}
 	for _, o := range all0 {
 		if o.Expect == "unsat" && o.Status == "unsat" && o.Solver != "trivial" && (o.Prefix != "" || o.Script != "") {
-			if seen[o.Name] >= 2 {
+			if seen[o.Name] >= secondPerName {
 				continue
 			}
 			seen[o.Name]++
